@@ -82,6 +82,17 @@ def run(ctx):
         inp = rnd.choice(INPUTS)
         if '(range .)' in e and inp in ('18446744073709551615', '1e300'): inp = '7'        # collection sizes <= 10^4 (resource exhaustion is out of scope)
         cases.append(mkcase('E%d' % i, cfg, inp.encode('utf8')))
+    # counts, indices and lengths at the numeric extremes, on small collections: nothing may be allocated or looped by the number given
+    HUGE = ['18446744073709551615', '9223372036854775807', '9223372036854775808', '1e19', '1e300', '4294967296', '-9223372036854775808', '-1', '1.5']
+    IDX = ['(take %s N)', '(take_last %s N)', '(sub %s 0 N)', '(sub %s N 1)', '(sub %s N N)', '(head "abc" N)', '(tail "abc" N)', '(get %s N)', '(%s#0)'.replace('(%s#0)', '(get %s N)'), '(pad "ab" N)', '(repeat "ab" N)']
+    k = 0
+    for tmpl in IDX:
+        for coll in ('[1, 2, 3]', '{"a": 1, "b": 2}', '"héllo"', '.'):
+            for nn in HUGE:
+                if '%s' not in tmpl and coll != '.': continue
+                k += 1
+                e = (tmpl % coll if '%s' in tmpl else tmpl).replace('N', nn)
+                cases.append(mkcase('E_h%d' % k, lib.new_cfg(select=[e + '=x']), b'[1, 2, 3]'))
     # recursion that ends because `or` / `and` / `?` / `default` do not evaluate the argument they do not need (a recursive macro that
     # never ends is the known finding K3; these do end)
     LAZY = ['(define "down" (or (<= . 0) (| (- . 1) @down)) @down)', '(define "down" (and (> . 0) (| (- . 1) @down)) @down)', '(define "down" (? (<= . 0) "end" (| (- . 1) @down)) @down)',
